@@ -16,7 +16,8 @@ for sd in sys.argv[1:]:
     shutil.copy(os.path.join(sd, "patch.diff"), dest)
     shutil.copy(os.path.join(sd, "demo.rs"), dest)
     out = {"property": pid, "summary": meta.get("summary"), "needs": meta.get("needs"),
-           "demo_file": "tests/%s.rs (copy demo.rs there)" % v["demo_cmd"].split("--test ")[1].split()[0],
+           "demo_file": "%stests/%s.rs (copy demo.rs there)" % ("temporal_capi/" if "-p temporal_capi" in v["demo_cmd"] else "",
+                                                                  v["demo_cmd"].split("--test ")[1].split()[0]),
            "demo_cmd": v["demo_cmd"], "author": "fresh sub-agent given only the property text and a scratch worktree",
            "confirmed_by_me": {"base_commit": v["head"], "scratch_worktree": "/tmp/seedv (removed afterwards)",
                                "ran": ["git apply patch.diff", "cargo build --workspace --offline",
